@@ -33,6 +33,15 @@ let named : (string, z list) Hashtbl.t = Hashtbl.create 16
 let rec bytes_of_hex (s : string) : z list =
   if s = "-" then []
   else if s.[0] = '@' then Hashtbl.find named (String.sub s 1 (String.length s - 1))
+  else if s.[0] = 'r' then begin
+    (* run-length form r<hh>x<count>[+<more>] *)
+    match String.index_opt s '+' with
+    | Some i -> bytes_of_hex (String.sub s 0 i) @ bytes_of_hex (String.sub s (i+1) (String.length s - i - 1))
+    | None ->
+      let b = byte_tab.(hexval s.[1] * 16 + hexval s.[2]) in
+      let n = int_of_string (String.sub s 4 (String.length s - 4)) in
+      List.init n (fun _ -> b)
+  end
   else begin
     let n = String.length s / 2 in
     let rec go i acc =
